@@ -336,6 +336,7 @@ type ReqOpt struct {
 	Hdr           map[string]string
 	Body          []byte
 	UnknownLength bool // ContentLength = -1
+	DeclLen       int64 // >0: the Content-Length the request announces (whatever the body holds)
 	SlowUntil     time.Duration
 	EndlessBody   bool
 	Hijackable    bool
@@ -359,6 +360,9 @@ func (w *World) Request(method, target string, o ReqOpt) *Resp {
 		req.ContentLength = int64(len(o.Body))
 		if o.UnknownLength || o.EndlessBody {
 			req.ContentLength = -1
+		}
+		if o.DeclLen > 0 {
+			req.ContentLength = o.DeclLen
 		}
 	}
 	for k, v := range o.Hdr {
